@@ -2,7 +2,7 @@ SPECIFICATION Spec
 CONSTANTS
   Deviations <- NoDevs
   RuleSets <- QuickSets
-  MaxDepth = 1
+  MaxDepth = 2
   Wide = FALSE
 INVARIANT Holds
 CHECK_DEADLOCK FALSE
